@@ -194,7 +194,8 @@ Definition handle_message (s : sys) (m : cmsg) : sys * after :=
   | MFire i pkt =>
     if negb (size_ok (c s) pkt) then (complete s i 1 CTooBig, Continue)
     else
-      let (s, ok) := write s pkt in
+      let ok := snd (write s pkt) in
+      let s := fst (write s pkt) in
       if negb ok then (cancel s i 1, Exit RunSocketClosed)
       else
         let s := complete s i 1 CUnit in
@@ -205,7 +206,8 @@ Definition handle_message (s : sys) (m : cmsg) : sys * after :=
       if quota (c s) =? 0 then (complete s i ph CQuota, Continue)
       else
         let s := set_c s (with_quota (c s) (quota (c s) - 1)) in
-        let (s, ok) := write s pkt in
+        let ok := snd (write s pkt) in
+        let s := fst (write s pkt) in
         if negb ok then (cancel s i ph, Exit RunSocketClosed)
         else
           let x := c s in
@@ -213,7 +215,8 @@ Definition handle_message (s : sys) (m : cmsg) : sys * after :=
           let x := with_retx x (retx x ++ [(a, set_dup pkt)]) in
           (set_c s x, Continue)
     else if ptype_of pkt =? 6 then
-      let (s, ok) := write s pkt in
+      let ok := snd (write s pkt) in
+      let s := fst (write s pkt) in
       if negb ok then (cancel s i ph, Exit RunSocketClosed)
       else
         let x := c s in
@@ -221,7 +224,8 @@ Definition handle_message (s : sys) (m : cmsg) : sys * after :=
         let x := with_retx x (retx x ++ [(a, pkt)]) in
         (set_c s x, Continue)
     else
-      let (s, ok) := write s pkt in
+      let ok := snd (write s pkt) in
+      let s := fst (write s pkt) in
       if negb ok then (cancel s i ph, Exit RunSocketClosed)
       else
         let x := c s in
@@ -233,7 +237,8 @@ Definition handle_message (s : sys) (m : cmsg) : sys * after :=
       let x := with_awaiting x (awaiting x ++ [(a, (i, 1))]) in
       let x := with_subs x (subs x ++ [(subid, i)]) in
       let s := set_c s x in
-      let (s, ok) := write s pkt in
+      let ok := snd (write s pkt) in
+      let s := fst (write s pkt) in
       (s, if ok then Continue else Exit RunSocketClosed)
   end.
 
@@ -277,7 +282,8 @@ Definition handle_packet (s : sys) (p : rxpkt) : sys * after :=
              match pub_subid p with Some sid => dispatch s sid p | None => s end in
     if r_qos p =? 0 then (s, Continue)
     else
-      let (s, ok) := write s (if r_qos p =? 1 then enc_puback (r_pid p) else enc_pubrec (r_pid p)) in
+      let ok := snd (write s (if r_qos p =? 1 then enc_puback (r_pid p) else enc_pubrec (r_pid p))) in
+      let s := fst (write s (if r_qos p =? 1 then enc_puback (r_pid p) else enc_pubrec (r_pid p))) in
       (s, if ok then Continue else Exit RunSocketClosed)
   | KDisconnect =>
     (s, Exit (if r_reason p =? 0 then RunOk else RunDisconnected p))
@@ -298,7 +304,8 @@ Definition handle_packet (s : sys) (p : rxpkt) : sys * after :=
     (ack_waiter s a p, Continue)
   | KPubrel =>
     let s := set_c s (with_rel (c s) (filter (fun i => negb (i =? r_pid p)) (await_rel (c s)))) in
-    let (s, ok) := write s (enc_pubcomp (r_pid p)) in
+    let ok := snd (write s (enc_pubcomp (r_pid p))) in
+    let s := fst (write s (enc_pubcomp (r_pid p))) in
     (s, if ok then Continue else Exit RunSocketClosed)
   | KConnack | KAuth => (s, Exit RunCodec)
   | KSuback => (ack_waiter s (aid 9 (r_pid p)) p, Continue)
@@ -356,7 +363,8 @@ Definition session_expired (x : ctx) (t : N) : bool :=
 Fixpoint retransmit (s : sys) (l : list (N * bytes)) : sys * bool :=
   match l with
   | [] => (s, true)
-  | (_, pkt) :: r => let (s, ok) := write s pkt in if ok then retransmit s r else (s, false)
+  | (_, pkt) :: r => let ok := snd (write s pkt) in
+ let s := fst (write s pkt) in if ok then retransmit s r else (s, false)
   end.
 
 (* one turn of `select!`: an inbound packet if the framing layer has one, else a queued message *)
